@@ -1,4 +1,5 @@
 import MpsProofs.Session
+import MpsProps.HandlerSrc
 import MpsProofs.Handler
 import MpsGen.Session
 import MpsGen.Protocols
